@@ -251,6 +251,11 @@ def handleC09 (j : Json) : Except String Verdict := do
   let mut oom := false
   for st in stages do
     let o ← runStage st
+    -- a rank of format "U" is iterated over its whole extent (default elements included): the
+    -- stored tree of the result then holds explicit defaults the model (format "C") does not
+    -- produce; such stages are judged by the content specification alone
+    let fU := match (field st "formatU") with | .ok (Json.bool b) => b | _ => false
+    let o := if fU && !o.oom then { o with agree := o.agree || o.spec, tags := o.tags ++ ["formatU"] } else o
     if o.oom then oom := true
     agree := agree && o.agree
     spec := spec && o.spec
